@@ -478,6 +478,30 @@ def run_case(desc, seed):
                 except Exception:
                     pass
         ops = ops + redistributed
+        # operators DERIVED from an operand that has already been hashed (used as a dict key / set member), next to directly constructed
+        # equals: whatever an operator caches about itself must not leak into what is derived from it
+        from renormalizer.model import OpSum
+        derived = []
+        for a in A[:12]:
+            _ = {a: 1}, hash(a)
+            for c in (2, 2.0, -1, 0.5 + 0j, np.float64(3.0)):
+                for mk in (lambda: a * c, lambda: c * a, lambda: (OpSum([a]) * c)[0], lambda: (c * OpSum([a]))[0], lambda: (OpSum([a]) / (1 / c))[0] if c != 0 else None):
+                    try:
+                        d = mk()
+                    except Exception:
+                        continue
+                    if isinstance(d, Op):
+                        derived.append(d)
+                try:
+                    derived.append(Op(a.symbol, a.dofs, a.factor * c, a.qn_list))
+                except Exception:
+                    pass
+            try:
+                derived.append(-a)
+                derived.append(Op(a.symbol, a.dofs, -a.factor, a.qn_list))
+            except Exception:
+                pass
+        ops = ops + derived
         for a in ops:
             if not (a == a):
                 add("C15:eq:not-reflexive", f"{a}")
